@@ -45,6 +45,8 @@ import AutosarVerif.Lemmas.StepX
 import AutosarVerif.Lemmas.RefWfReal
 import AutosarVerif.Lemmas.IndexBridge
 import AutosarVerif.Lemmas.NameWfReal
+import AutosarVerif.Lemmas.StepY
+import AutosarVerif.Lemmas.StepYWitness
 
 namespace AV.C04
 open AV.W
@@ -149,5 +151,24 @@ theorem C04_witness_content_before_short_name :
 SHORT-NAME, second package, remove) is guarded, and the theorem applies to it with a non-empty index -/
 theorem C04_hypotheses_are_met : IdxHyp nameSpec nameEnv 6 ∧ (∀ op ∈ goodOps, OpOk nameSpec 6 op) ∧
     WInv nameSpec 6 (run nameSpec nameEnv [] goodOps) := ⟨nameSpec_hyp, goodOps_ok, goodOps_winv⟩
+
+
+/-! ### added in the third session: statements proved in the lemma files, restated here by name
+(`type_of%` keeps the statement identical to the lemma; the signature is quoted in the comment) -/
+
+/-- **with moves and copies**: in every state reachable by guarded steps of the alphabet `OpY` (`Lemmas/StepY.lean`: everything of the larger alphabet + `move_element_here` inside one model + `create_copied_sub_element`; the guards of move and copy are decidable predicates on the state: the moved / copied element has an item name, the moved subtree carries no local file sets, the copied content is permitted in the destination version) the full invariant `GInv` holds: well-formed tree, file sets, path index exact, referrer lists exact, …
+`theorem reachY_ginv (hH : IdxHyp S V vOk) (hR : RefWF S) (hv32 : vOk &&& 0xFFFFFFFF = vOk) {w : World} (h : ReachY S V vOk rootAttrs w) : GInv S vOk w` -/
+theorem C04_invariants_with_moves_and_copies : type_of% @AV.W.reachY_ginv := @AV.W.reachY_ginv
+
+/-- `theorem reachY_ginv_sep (hH : IdxHyp S V vOk) (hR : RefWF S) (hv32 : vOk &&& 0xFFFFFFFF = vOk) {w : World} (h : ReachY S V vOk rootAttrs w) : GInv S vOk w ∧ SepInv w` -/
+theorem C04_invariants_and_disjoint_ids_with_moves_and_copies : type_of% @AV.W.reachY_ginv_sep := @AV.W.reachY_ginv_sep
+
+/-- non-vacuity: a guarded history with ten creations, a copy and a move (guards discharged by `decide`)
+`theorem yOps_reach : ReachY mvSpec nameEnv 6 [] (runY mvSpec nameEnv [] emptyWorld yOps)` -/
+theorem C04_guarded_history_with_copy_and_move_exists : type_of% @AV.W.yOps_reach := @AV.W.yOps_reach
+
+/-- negation witness for the file-set clause of the move guard (known finding c10:move-keeps-descendant-file-sets)
+`theorem move_unguarded_breaks_inv : Inv fWorld ∧ ¬ Inv (opMove mvSpecF nameEnv fWorld 3 4 none).1` -/
+theorem C04_witness_move_guard_needed : type_of% @AV.W.move_unguarded_breaks_inv := @AV.W.move_unguarded_breaks_inv
 
 end AV.C04
